@@ -117,3 +117,94 @@ example : parse [91, 97, 45, 122, 93] = none := by decide                       
 example : fnmatch [91, 97] [91, 97] = some true := by decide                         -- unclosed '[' is a literal
 
 end Ts.Glob
+
+/-! ## `_calculate_replicated_entries`: replicated = glob-matched, not sharded, reported by EVERY rank -/
+namespace Ts.Glob
+
+/-- a rank's candidates when every glob is inside the model: its glob-matched, non-sharded paths, in order -/
+def candOf (m : Str → Bool) (r : List (Str × Bool)) : List Str :=
+  (r.filter (fun pv => m pv.1 && !pv.2)).map (·.1)
+
+theorem sum_counts_eq_length (p : Str) (cands : List (List Str)) (hnd : ∀ c ∈ cands, c.Nodup) :
+    ((cands.map (fun c => c.count p)).sum = cands.length) ↔ ∀ c ∈ cands, p ∈ c := by
+  induction cands with
+  | nil => simp
+  | cons c cs ih =>
+    have hc := hnd c (by simp)
+    have hcs : ∀ c' ∈ cs, c'.Nodup := fun c' h => hnd c' (by simp [h])
+    have hle : (cs.map (fun c => c.count p)).sum ≤ cs.length := by
+      clear ih
+      induction cs with
+      | nil => simp
+      | cons d ds ihd =>
+        have := ihd (fun c' h => hnd c' (by simp at h ⊢; rcases h with h | h <;> simp [h])) (fun c' h => hcs c' (by simp [h]))
+        have hd : d.count p ≤ 1 := List.nodup_iff_count.mp (hcs d (by simp)) p
+        simp only [List.map_cons, List.sum_cons, List.length_cons]
+        omega
+    have h1 : c.count p ≤ 1 := List.nodup_iff_count.mp hc p
+    simp only [List.map_cons, List.sum_cons, List.length_cons, List.mem_cons, forall_eq_or_imp]
+    constructor
+    · intro h
+      have hcp : c.count p = 1 := by omega
+      have hrest : (cs.map (fun c => c.count p)).sum = cs.length := by omega
+      exact ⟨List.count_pos_iff.mp (by omega), (ih hcs).mp hrest⟩
+    · rintro ⟨hp, hall⟩
+      have hcp : c.count p = 1 := by
+        have := List.count_pos_iff.mpr hp
+        omega
+      have := (ih hcs).mpr hall
+      omega
+
+/-- **Which paths are replicated.** With every glob inside the modelled fragment (`m` = "matches one of the globs")
+and no path listed twice by a rank: a path is chosen iff rank 0 reports it as a glob-matched, non-sharded path AND
+every rank does. A leaf that some rank does not have — rank 0 or any other — stays private. -/
+theorem replicated_iff (m : Str → Bool) (perRank : List (List (Str × Bool))) (r0 : List (Str × Bool)) (rest)
+    (hpr : perRank = r0 :: rest) (hnd : ∀ r ∈ perRank, (r.map (·.1)).Nodup) (p : Str) :
+    p ∈ (candOf m r0).filter (fun q => ((perRank.map (candOf m)).map (fun c => c.count q)).sum == perRank.length)
+      ↔ ∀ r ∈ perRank, p ∈ candOf m r := by
+  have hndc : ∀ c ∈ perRank.map (candOf m), c.Nodup := by
+    intro c hc
+    rw [List.mem_map] at hc
+    obtain ⟨r, hr, rfl⟩ := hc
+    unfold candOf
+    exact (hnd r hr).sublist ((List.filter_sublist).map _)
+  have key := sum_counts_eq_length p (perRank.map (candOf m)) hndc
+  simp only [List.length_map] at key
+  rw [List.mem_filter]
+  simp only [beq_iff_eq]
+  constructor
+  · rintro ⟨_, hs⟩
+    intro r hr
+    exact (key.mp hs) _ (List.mem_map_of_mem hr)
+  · intro h
+    refine ⟨h r0 (by rw [hpr]; simp), key.mpr ?_⟩
+    intro c hc
+    rw [List.mem_map] at hc
+    obtain ⟨r, hr, rfl⟩ := hc
+    exact h r hr
+
+theorem candM_eq (globs : List Str) (m : Str → Bool) (hm : ∀ p, matchesAny globs p = some (m p)) (r : List (Str × Bool)) :
+    candM globs r = some (candOf m r) := by
+  unfold candM
+  induction r with
+  | nil => rfl
+  | cons pv r ih =>
+    simp only [List.foldr_cons, ih, hm pv.1, candOf, List.filter_cons]
+    split <;> simp_all [candOf]
+
+theorem allCands_eq (globs : List Str) (m : Str → Bool) (hm : ∀ p, matchesAny globs p = some (m p))
+    (rs : List (List (Str × Bool))) : allCands globs rs = some (rs.map (candOf m)) := by
+  unfold allCands
+  induction rs with
+  | nil => rfl
+  | cons r rs ih => simp only [List.foldr_cons, ih, candM_eq globs m hm r, List.map_cons]
+
+/-- the executable `replicatedPaths` is that characterisation whenever every glob is inside the model -/
+theorem replicatedPaths_eq (globs : List Str) (m : Str → Bool) (hm : ∀ p, matchesAny globs p = some (m p))
+    (r0 : List (Str × Bool)) (rest : List (List (Str × Bool))) :
+    replicatedPaths globs (r0 :: rest) = some ((candOf m r0).filter
+      (fun q => (((r0 :: rest).map (candOf m)).map (fun c => c.count q)).sum == (r0 :: rest).length)) := by
+  unfold replicatedPaths
+  simp only [allCands_eq globs m hm, candM_eq globs m hm]
+
+end Ts.Glob
